@@ -170,7 +170,7 @@ var checkConc = register("c19.scenario", func(c ConcScenario) *Violation {
 			if strings.Contains(r.class, EPanic) {
 				return violf("%s panicked when run concurrently: %s", at, r.text)
 			}
-			if open && (w.class != r.class || op.Silent) {
+			if open && (w.class != r.class || op.Silent || hasPredicate(trees[op.Path].Root)) {
 				// which error is met first, and what a silent run collected before it, depends on the member order
 				continue
 			}
@@ -198,6 +198,7 @@ var checkConc = register("c19.scenario", func(c ConcScenario) *Violation {
 		if open || strings.Count(c.Paths[k.p], "keyvalue()") >= 2 {
 			continue
 		}
+		_ = hasPredicate
 		if w.class != r.class || w.boolv != r.boolv || !sameSeq(w.items, r.items) || w.text != r.text {
 			return violf("%s(%q, doc %d) returns %s after the concurrent history, but %s on a fresh Path", k.kind, c.Paths[k.p], k.d, r, w)
 		}
